@@ -16,6 +16,10 @@ def typeEnumTable : List (Nat × Nat) := [(1, 16), (2, 32), (3, 48), (4, 64), (5
 def oncompletionNames : List (String × Nat) := [("NoOp", 96), ("OptIn", 97), ("CloseOut", 98), ("ClearState", 99), ("UpdateApplication", 100), ("DeleteApplication", 101)]
 def typeEnumNames : List (String × Nat) := [("pay", 16), ("keyreg", 32), ("acfg", 48), ("axfer", 64), ("afrz", 80), ("appl", 103)]
 def addrMarkers : List String := ["ANY_ADDRESS", "NO_ADDRESS", "SOME_ADDRESS", "CREATOR_ADDRESS"]
+def ANY_ADDRESS : String := "ANY_ADDRESS"
+def NO_ADDRESS : String := "NO_ADDRESS"
+def SOME_ADDRESS : String := "SOME_ADDRESS"
+def CREATOR_ADDRESS : String := "CREATOR_ADDRESS"
 def addrBaseKeys : List String := ["RekeyTo", "CloseRemainderTo", "AssetCloseTo", "Sender"]
 def feeBaseKeys : List String := ["Fee"]
 def intBaseKeys : List String := ["GroupSize", "GroupIndex"]
